@@ -41,6 +41,11 @@ const PROGS: &[Prog] = &[
     Prog { id: "missing-file", text: None, uses_std: false },
 ];
 
+/// the pre-existing output file is longer than any compiled program, so a missing truncation shows
+fn old_content() -> String {
+    "-- OLD CONTENT that must disappear completely\n".repeat(20_000)
+}
+
 struct Obs {
     code: Option<i32>,
     stdout: Vec<u8>,
@@ -86,7 +91,7 @@ pub fn run(run: &mut Run) {
     for p in PROGS {
         let src = root.join("src").join(format!("{}.sy", p.id));
         for no_std in [false, true] {
-            for require in [None, Some("mymod")] {
+            for require in [None, Some("mymod"), Some("lib.util"), Some("dir/mod.lua")] {
                 for verbose in [false, true] {
                     if verbose && !thorough && require.is_some() {
                         continue;
@@ -153,11 +158,13 @@ pub fn run(run: &mut Run) {
                         }
                         // --require: exactly one require, directly after the preamble
                         let text = String::from_utf8_lossy(&o_stdout.stdout).to_string();
-                        let needle = "require \"mymod\"";
+                        // the argument is placed directly in a `require`, minus a `.lua` suffix
+                        let needle_s = format!("require \"{}\"", require.map(|r| r.strip_suffix(".lua").unwrap_or(r)).unwrap_or("mymod"));
+                        let needle = needle_s.as_str();
                         let count = text.matches(needle).count();
                         match require {
                             Some(_) => {
-                                if count != 1 || !text[preamble.len().min(text.len())..].starts_with(needle) || !text.starts_with(&preamble) {
+                                if text.matches("require \"").count() != 1 || count != 1 || !text[preamble.len().min(text.len())..].starts_with(needle) || !text.starts_with(&preamble) {
                                     fail(&mut st, "require-placement", desc(Mode::OutStdout, None), format!("{} occurrences; text after the preamble starts with {:?}", count, text[preamble.len().min(text.len())..].chars().take(40).collect::<String>()), &a);
                                 } else {
                                     st.outcome("require-once-after-preamble");
@@ -186,7 +193,7 @@ pub fn run(run: &mut Run) {
                             PathState::Absent => root.join("out").join(format!("fresh{}.lua", seq)),
                             PathState::Existing => {
                                 let t = root.join("out").join(format!("old{}.lua", seq));
-                                std::fs::write(&t, "OLD CONTENT\n").unwrap();
+                                std::fs::write(&t, old_content()).unwrap();
                                 t
                             }
                             PathState::MissingDir => root.join("out/no/such/dir").join(format!("x{}.lua", seq)),
@@ -225,7 +232,7 @@ pub fn run(run: &mut Run) {
                                 let after = std::fs::metadata(&target).ok().and_then(|m| m.modified().ok());
                                 let untouched = match ps {
                                     PathState::Absent | PathState::MissingDir => !target.exists(),
-                                    PathState::Existing => std::fs::read(&target).ok() == Some(b"OLD CONTENT\n".to_vec()) && before == after,
+                                    PathState::Existing => std::fs::read(&target).ok() == Some(old_content().into_bytes()) && before == after,
                                     PathState::IsDirectory => target.is_dir(),
                                 };
                                 if !untouched {
